@@ -26,6 +26,7 @@ Definition canon_payload (p : payload) : payload :=
   | PItems l c k => PItems (map canon_item l) c (canon_item k)
   | PDesc d => PDesc d
   | PBatchWrite u => PBatchWrite (map (fun tr => (fst tr, map canon_wreq (snd tr))) u)
+  | PAlt l => PAlt l
   | PBatchGet r u => PBatchGet (map (fun tr => (fst tr, map canon_item (snd tr))) r)
                                (map (fun tr => (fst tr, map canon_item (snd tr))) u)
   end.
@@ -70,10 +71,19 @@ Definition payload_eqb (a b : payload) : bool :=
   | _, _ => false
   end.
 
+(* a: the model's observation, b: the implementation's *)
 Definition obs_eqb (a b : obs) : bool :=
-  res_eqb (o_res a) (o_res b) &&
-  payload_eqb (canon_payload (o_pay a)) (canon_payload (o_pay b)) &&
-  list_eqb Nat.eqb (o_fired a) (o_fired b).
+  match o_pay a with
+  | PAlt errs =>
+      match o_res b, o_pay b with
+      | RErr e, PNone => existsb (errclass_eqb e) errs
+      | _, _ => false
+      end
+  | _ =>
+      res_eqb (o_res a) (o_res b) &&
+      payload_eqb (canon_payload (o_pay a)) (canon_payload (o_pay b)) &&
+      list_eqb Nat.eqb (o_fired a) (o_fired b)
+  end.
 
 (* ---- abstracted internal state, compared with the implementation's dump after every step ---- *)
 Record abs_table := {
@@ -88,8 +98,10 @@ Definition abs_of_table (t : table) : abs_table :=
 
 Definition abs_of_client (c : client) : fmap abs_table := map (fun nt => (fst nt, abs_of_table (snd nt))) (c_tables c).
 
+Definition citem_eqb (a b : item) : bool := item_eqb (canon_item a) (canon_item b).
+
 Definition abs_table_eqb (a b : abs_table) : bool :=
-  list_eqb item_eqb (a_items a) (a_items b) && tmap_eqb item_eqb (a_indexes a) (a_indexes b).
+  list_eqb citem_eqb (a_items a) (a_items b) && tmap_eqb citem_eqb (a_indexes a) (a_indexes b).
 
 Definition abs_eqb (a b : fmap abs_table) : bool :=
   list_eqb (fun x y => str_eqb (fst x) (fst y) && abs_table_eqb (snd x) (snd y)) a b.
@@ -115,7 +127,23 @@ Definition table_inv_b (t : table) : bool :=
     forallb (fun r => mem (fst r) (t_data t)) (ix_refs ix)) (t_indexes t).
 
 (* ---- one correspondence case: a script and what the implementation was observed to do ---- *)
-Record expected := { x_obs : obs; x_state : option (fmap abs_table) }.
+(* which components of a step are compared (the projection a property's check looks at) *)
+Record view := { v_res : bool; v_pay : bool; v_fired : bool; v_state : bool; v_inv : bool }.
+Definition full_view : view := {| v_res := true; v_pay := true; v_fired := true; v_state := true; v_inv := true |}.
+
+Record expected := { x_obs : obs; x_state : option (fmap abs_table); x_view : view }.
+
+Definition step_agrees (c : client) (ob : obs) (x : expected) : bool * bool * bool :=
+  let v := x_view x in
+  ((if v_res v && v_pay v && v_fired v then obs_eqb ob (x_obs x)
+    else (if v_res v then (match o_pay ob with
+                           | PAlt errs => match o_res (x_obs x) with RErr e => existsb (errclass_eqb e) errs | _ => false end
+                           | _ => res_eqb (o_res ob) (o_res (x_obs x))
+                           end) else true) &&
+         (if v_pay v then (match o_pay ob with PAlt _ => true | p => payload_eqb (canon_payload p) (canon_payload (o_pay (x_obs x))) end) else true) &&
+         (if v_fired v then list_eqb Nat.eqb (o_fired ob) (o_fired (x_obs x)) else true)),
+   (if v_state v then match x_state x with Some st => abs_eqb (abs_of_client c) st | None => true end else true),
+   (if v_inv v then forallb (fun nt => table_inv_b (snd nt)) (c_tables c) else true)).
 
 Fixpoint check_script (s : sdk) (w : world) (i : nat) (ops : list (str * op)) (exp : list expected) : option nat :=
   match ops, exp with
@@ -123,13 +151,18 @@ Fixpoint check_script (s : sdk) (w : world) (i : nat) (ops : list (str * op)) (e
   | o :: ops', x :: exp' =>
       let '(w', ob) := wstep lang_match lang_update s w o in
       let c := match lookup (fst o) w' with Some c => c | None => new_client end in
-      if obs_eqb ob (x_obs x) &&
-         match x_state x with Some st => abs_eqb (abs_of_client c) st | None => true end &&
-         forallb (fun nt => table_inv_b (snd nt)) (c_tables c)
-      then check_script s w' (S i) ops' exp'
-      else Some i
+      match step_agrees c ob x with
+      | (true, true, true) => check_script s w' (S i) ops' exp'
+      | _ => Some i
+      end
   | _, _ => Some i
   end.
+
+(* diagnostics for one step: (observation equal, abstract state equal, invariants hold) *)
+Definition diag_step (s : sdk) (w : world) (o : str * op) (x : expected) : bool * bool * bool :=
+  let '(w', ob) := wstep lang_match lang_update s w o in
+  let c := match lookup (fst o) w' with Some c => c | None => new_client end in
+  step_agrees c ob x.
 
 (* indices (case, step) of the first mismatch of every failing case *)
 Definition mismatches (s : sdk) (cases : list (list (str * op) * list expected)) : list (nat * nat) :=
